@@ -634,7 +634,7 @@ def prepare_dump(data: IOData, allow_changes: bool, filename: str) -> IOData:
 def dump_one(f: TextIO, data: IOData):
     """Do not edit this docstring. It will be overwritten."""
     # write title
-    print("{:72}".format(data.title or "FCHK generated by IOData"), file=f)
+    print("{:72}".format("FCHK generated by IOData" if data.title is None else data.title), file=f)
 
     # write run type, level of theory, and basis set name (all in uppercase)
     items = [getattr(data, item) or "NA" for item in ["run_type", "lot", "obasis_name"]]
